@@ -35,23 +35,96 @@ func extraC02Staged(c *Ctx, r *Report) {
 		call, ok := h.(*ssa.Call)
 		return ok && call.Call.IsInvoke() && call.Call.Method.Name() == "Header" && isNamed(call.Call.Value.Type(), "net/http", "ResponseWriter")
 	}
-	for _, af := range attemptFuncs(c) {
-		eachInstr(af, func(in ssa.Instruction) {
-			h, _, _, ok := headerCall(in, "Add")
-			if !ok || !isClientHeader(h) {
+	isWH := func(x ssa.Instruction) bool {
+		cc := getCall(x)
+		return cc != nil && cc.IsInvoke() && cc.Method.Name() == "WriteHeader" && isNamed(cc.Value.Type(), "net/http", "ResponseWriter")
+	}
+	commitMemo := map[*ssa.Function]bool{}
+	// commit: WriteHeader, or a helper that reaches WriteHeader on all its paths (core.WriteResponseHead)
+	commit := func(x ssa.Instruction) bool {
+		if isWH(x) {
+			return true
+		}
+		if _, isDefer := x.(*ssa.Defer); isDefer {
+			return false
+		}
+		if cc := getCall(x); cc != nil {
+			if sc := cc.StaticCallee(); sc != nil && c.inRepo(sc) && sc.Blocks != nil {
+				ok, _ := alwaysReaches(c, sc, isWH, 3, commitMemo)
+				return ok
+			}
+		}
+		return false
+	}
+	// leaks(f): f stages backend headers on the ResponseWriter it is given — itself or through a helper that leaks — and
+	// can return without a commit. For an attempt function that is the violation; for a helper it makes the CALL a
+	// staging site of its caller (a copyHeaders(w, resp) helper followed by the caller's WriteHeader is fine).
+	type leak struct {
+		site ssa.Instruction
+		ret  *ssa.Return
+	}
+	leakMemo := map[*ssa.Function][]leak{}
+	sitesOf := map[*ssa.Function]int{}
+	var leaks func(f *ssa.Function, d int) []leak
+	leaks = func(f *ssa.Function, d int) []leak {
+		if l, ok := leakMemo[f]; ok {
+			return l
+		}
+		leakMemo[f] = nil
+		if d == 0 || f.Blocks == nil {
+			return nil
+		}
+		var out []leak
+		eachInstr(f, func(in ssa.Instruction) {
+			staged := false
+			if h, _, _, ok := headerCall(in, "Add"); ok && isClientHeader(h) {
+				staged = true
+			} else if cc := getCall(in); cc != nil {
+				if _, isDefer := in.(*ssa.Defer); !isDefer {
+					if sc := cc.StaticCallee(); sc != nil && sc != f && c.inRepo(sc) && sc.Blocks != nil {
+						passes := false
+						for _, a := range cc.Args {
+							if isNamed(a.Type(), "net/http", "ResponseWriter") {
+								passes = true
+							}
+						}
+						if passes && len(leaks(sc, d-1)) > 0 {
+							staged = true
+						}
+					}
+				}
+			}
+			if !staged {
 				return
 			}
-			key := fname(af) + ":staged-headers-committed"
-			all, ret := everyPathToReturnHits(in, func(x ssa.Instruction) bool {
-				cc := getCall(x)
-				return cc != nil && cc.IsInvoke() && cc.Method.Name() == "WriteHeader" && isNamed(cc.Value.Type(), "net/http", "ResponseWriter")
-			})
-			if all {
-				r.OK("C02-R6", key, in.Pos(), "every path from the header copy to a return commits the response")
-			} else {
-				r.Bad("C02-R6", key, in.Pos(), "the attempt can return after copying the backend's headers into the client's header map without committing them; a later attempt adds its own headers on top", c.Pos(ret.Pos())+": return reached with the headers still staged")
+			sitesOf[f]++
+			if all, ret := everyPathToReturnHits(in, commit); !all {
+				out = append(out, leak{in, ret})
 			}
 		})
+		leakMemo[f] = out
+		return out
+	}
+	for _, af := range attemptFuncs(c) {
+		ls := leaks(af, 3)
+		key := fname(af) + ":staged-headers-committed"
+		if len(ls) > 0 {
+			r.Bad("C02-R6", key, ls[0].site.Pos(), "the attempt can return after copying the backend's headers into the client's header map without committing them; a later attempt adds its own headers on top", c.Pos(ls[0].ret.Pos())+": return reached with the headers still staged")
+			continue
+		}
+		// where were the headers staged? directly, or inside a helper that also commits them
+		n := sitesOf[af]
+		eachInstr(af, func(in ssa.Instruction) {
+			if cc := getCall(in); cc != nil {
+				if sc := cc.StaticCallee(); sc != nil && c.inRepo(sc) && sc.Blocks != nil {
+					leaks(sc, 2)
+					n += sitesOf[sc]
+				}
+			}
+		})
+		if n > 0 {
+			r.OK("C02-R6", key, af.Pos(), "every path from the header copy to a return commits the response")
+		}
 	}
 	addMutants(Mutant{Prop: "C02", Name: "return-with-staged-headers", File: "internal/adapter/proxy/sherpa/service_retry.go", Rule: "C02-R6",
 		Old: "	w.WriteHeader(resp.StatusCode)", New: "	if resp.ContentLength == 0 && resp.StatusCode >= 500 {\n		return fmt.Errorf(\"empty backend error response\")\n	}\n	w.WriteHeader(resp.StatusCode)"})
